@@ -974,6 +974,69 @@ example :
       .check 0, .stop, .register 0, .launch 0, .recv 0]
     s.log = [] ∧ Acc.phaseOf s 0 = some (.closed .routerClosed) := by decide
 
+/-! ### round 7 — who the peer is on a TLS listener (`Model/C17Tls.lean`) -/
+
+/-- Over TLS the key the filter tests is a key whose private half the peer holds: whenever a connection
+offered with certificate `c` and identity message `p` ends in a dispatch, the key that made the signature is
+the key named in the CommonName, is the key of the identity message, and is valid.  A change of *any* of the
+three sites (the verifier proving another name than the CommonName, `receiveServerIdentity` comparing another
+name, `isPeerValid` testing another field) falsifies it. -/
+theorem c17_tls_tested_key_is_held (vp : VP) (hwf : VP.WF vp) (c : Tls.Cert) (p : Ident)
+    (h : Tls.offer false vp c p = .dispatched) :
+    c.signer = p.key ∧ c.cn = p.key ∧ c.signedName = p.key ∧ SpecValid vp c.signer := by
+  unfold Tls.offer at h
+  split at h
+  · cases h
+  · rename_i hv
+    split at h
+    · cases h
+    · rename_i hi
+      split at h
+      · rename_i hval
+        simp only [Tls.verify, Tls.provenName, Bool.false_eq_true, if_false, Bool.not_eq_true] at hv
+        simp only [Tls.identMatches, Bool.not_eq_true', beq_eq_false_iff_ne, ne_eq, Classical.not_not] at hi
+        have h1 : c.signer = c.cn := by
+          cases hs : (c.signer == c.cn) with
+          | true => exact beq_iff_eq.mp hs
+          | false =>
+            have := hv
+            simp [hs] at this
+        have h2 : c.signedName = c.cn := by
+          cases hs : (c.signedName == c.cn) with
+          | true => exact beq_iff_eq.mp hs
+          | false =>
+            have := hv
+            simp [hs, h1] at this
+        refine ⟨by rw [h1, hi], hi.symm, by rw [h2, hi], ?_⟩
+        rw [h1, ← hi]
+        exact (c17_valid_iff vp hwf p).mp hval
+      · cases h
+
+/-- … hence the holder of a key that is in none of the current sets is never served, whatever certificate
+and identity message it makes up -/
+theorem c17_tls_non_member_never_served (vp : VP) (hwf : VP.WF vp) (c : Tls.Cert) (p : Ident)
+    (hn : ¬ SpecValid vp c.signer) : Tls.offer false vp c p ≠ .dispatched := fun h =>
+  hn (c17_tls_tested_key_is_held vp hwf c p h).2.2.2
+
+/-- an honest peer's certificate adds nothing to the plain accept path: served iff its key is valid -/
+theorem c17_tls_honest_is_plain_offer (vp : VP) (k : Key) (f : PeerId) :
+    Tls.offer false vp (Tls.Cert.honest k) ⟨k, f⟩ = if vp.isValid ⟨k, f⟩ then .dispatched else .refused := by
+  simp [Tls.offer, Tls.verify, Tls.provenName, Tls.identMatches, Tls.Cert.honest]
+
+/-- witness for the variant whose verifier proves the key named in the URI (seeded change C17r6-A): the holder
+of key 9 — in no set — names member 1 in the CommonName and itself in the URI, and is served as member 1 -/
+theorem c17_tls_uri_key_must_not_be_the_proven_one :
+    let vp : VP := VP.set none [1] [Ident.honest 1]
+    let c : Tls.Cert := { cn := 1, uri := some 9, signer := 9, signedName := 9 }
+    vp.isValid (Ident.honest 9) = false ∧
+    Tls.offer true vp c (Ident.honest 1) = .dispatched ∧ Tls.offer false vp c (Ident.honest 1) = .handshakeRefused := by
+  decide
+
+example : Tls.offer false (VP.set none [1] [Ident.honest 1]) (Tls.Cert.honest 1) (Ident.honest 1) = .dispatched := by decide
+example : Tls.offer false (VP.set none [1] [Ident.honest 1]) (Tls.Cert.honest 9) (Ident.honest 9) = .refused := by decide
+example : Tls.offer false none { cn := 1, uri := none, signer := 1, signedName := 1 } (Ident.honest 2) = .identityRefused := by decide
+
+
 /-! ### the code regions the model stands for
 Regenerated from /repo's source on every run (`harness/cmd/astfacts` → `OnetVerif/Shapes.lean`): the
 calls that matter for synchronisation and data flow, the lock regions and (for decision logic) the
